@@ -22,15 +22,18 @@ func frontEndNoEvolution(f string) bool {
 	return frontEndFile(f) && !strings.Contains(f, "/pkg/dsl/evolution")
 }
 
+func schemaFiles(f string) bool { return strings.HasSuffix(f, "/pkg/dsl/protocolschema.go") }
+
 func dslValidationFiles(f string) bool {
 	return strings.Contains(f, "/pkg/dsl/validation") || strings.HasSuffix(f, "/pkg/dsl/yaml.go")
 }
 
 func init() {
+	reg("C04", ruleOneSchemaFunction, ruleMarshalCoverage, ruleSchemaCanonical, rulePrunes(schemaFiles, "V5", 2), ruleStateMachineSchemaCheck)
 	reg("C01", rulePlan, ruleRecordOrder, ruleDirectionDuality, ruleCppPrimitiveFamilies, ruleStepFraming, ruleEmptyBatchGuard, ruleEndStream)
 	reg("C16", ruleEndStream, ruleStepFraming)
 	reg("C17", ruleEmptyBatchGuard, ruleStepFraming)
-	reg("C15", ruleStateMachineSchemaCheck)
+	reg("C15", ruleStateMachineSchemaCheck, ruleMarshalCoverage)
 	reg("C03", ruleEmittedSymbols, rulePlan)
 	reg("C08", ruleEmittedSymbols)
 	reg("C19", ruleCommonTypeMap, ruleEmitterSiblings, ruleParenthesisation, ruleOperatorTokens, rulePromotionNotBypassed)
